@@ -77,6 +77,11 @@ func lookupIntrinsic(fn *ssa.Function) intrinsicFn {
 		return func(ex *Exec, fn *ssa.Function, args []Value, caller *Frame) Value { return nil }
 	}
 	if h, ok := namedIntrinsics[name]; ok {
+		if name == viseMod+"/asm.numSize" && !callsFunc(fn, "math.Log2") {
+			// the contract stub stands for the floating-point implementation
+			// only; an implementation without math.Log2 is executed for real
+			return nil
+		}
 		return h
 	}
 	switch pkg {
@@ -1202,4 +1207,18 @@ func (ex *Exec) callBuiltinLen(v Value) Value {
 		return ex.strLen(x)
 	}
 	return ex.ts.Const(64, 0)
+}
+
+// callsFunc: does fn's body contain a static call to the named function?
+func callsFunc(fn *ssa.Function, name string) bool {
+	for _, b := range fn.Blocks {
+		for _, in := range b.Instrs {
+			if c, ok := in.(ssa.CallInstruction); ok {
+				if callee := c.Common().StaticCallee(); callee != nil && callee.String() == name {
+					return true
+				}
+			}
+		}
+	}
+	return false
 }
